@@ -326,3 +326,278 @@ Proof.
   intros HPoly Hx Hy N. destruct (poly_ok P HPoly) as [HP HR].
   apply crc_detect_one_byte_gen; [exact HP|exact HR|apply w32_byte; exact Hx|apply w32_byte; exact Hy|exact N].
 Qed.
+
+(* ------------------------------------------------------------------------- *)
+(* 6. checksum objects and the reader's checksum test                          *)
+(* ------------------------------------------------------------------------- *)
+
+(* [be n] only looks at v modulo 256^n, and is injective on that *)
+Lemma be_eq_mod n : forall v w, be n v = be n w -> v mod 256 ^ Z.of_nat n = w mod 256 ^ Z.of_nat n.
+Proof.
+  induction n as [|n IH]; intros v w E.
+  - cbn. rewrite !Z.mod_1_r. reflexivity.
+  - cbn [be] in E. apply app_inj_tail in E as [E1 E2]. apply IH in E1.
+    rewrite Nat2Z.inj_succ, Z.pow_succ_r by lia.
+    assert (Hp : 0 < 256 ^ Z.of_nat n) by (apply Z.pow_pos_nonneg; lia).
+    rewrite !(Z.rem_mul_r _ 256) by lia. rewrite E1, E2. reflexivity.
+Qed.
+
+Lemma land_lxor_distr_l a b c : Z.land (Z.lxor a b) c = Z.lxor (Z.land a c) (Z.land b c).
+Proof.
+  apply Z.bits_inj'; intros n Hn. rewrite ?Z.lxor_spec, ?Z.land_spec, ?Z.lxor_spec.
+  destruct (Z.testbit a n), (Z.testbit b n), (Z.testbit c n); reflexivity.
+Qed.
+
+(* two words whose xor is a non-zero 32-bit word differ modulo 2^32 *)
+Lemma lxor_w32_mod_neq a b : w32 (Z.lxor a b) -> Z.lxor a b <> 0 -> a mod 2 ^ 32 <> b mod 2 ^ 32.
+Proof.
+  intros Hd Hn E. apply Hn.
+  rewrite <- (Z.mod_small (Z.lxor a b) (2 ^ 32)) by exact Hd.
+  rewrite <- !Z.land_ones in * by lia.
+  rewrite land_lxor_distr_l, E. apply Z.lxor_nilpotent.
+Qed.
+
+Lemma be4_crc_neq a b : w32 (Z.lxor a b) -> Z.lxor a b <> 0 -> be 4 a <> be 4 b.
+Proof.
+  intros Hd Hn E. apply be_eq_mod in E. change (256 ^ Z.of_nat 4) with (2 ^ 32) in E.
+  exact (lxor_w32_mod_neq a b Hd Hn E).
+Qed.
+
+(* d' is d with exactly one byte replaced by a different byte *)
+Definition one_byte_diff (d d' : list Z) : Prop :=
+  exists pre x y post, d = pre ++ x :: post /\ d' = pre ++ y :: post /\
+                       0 <= x < 256 /\ 0 <= y < 256 /\ x <> y.
+
+Lemma one_byte_diff_neq d d' : one_byte_diff d d' -> d <> d'.
+Proof.
+  intros (pre & x & y & post & -> & -> & _ & _ & N) E. apply app_inv_head in E. congruence.
+Qed.
+
+Definition ck_hash (c : ckst) : Prop := ck_kind c = 1 \/ ck_kind c = 3.
+Definition ck_poly (c : ckst) : Z := if ck_kind c =? 1 then poly_ieee else poly_castagnoli.
+
+Lemma ck_poly_ok c : ck_poly c = poly_ieee \/ ck_poly c = poly_castagnoli.
+Proof. unfold ck_poly. destruct (ck_kind c =? 1); auto. Qed.
+
+Lemma ck_add_hash c bs : ck_hash c ->
+  ck_add c bs = mkCk (ck_kind c) (crc32_update (ck_poly c) (ck_val c) bs).
+Proof.
+  intros [E | E]; unfold ck_add, ck_poly; rewrite E; reflexivity.
+Qed.
+
+(* Add over the chunks of a fragment = one Update over their concatenation *)
+Lemma ck_fold_hash chunks : forall c, ck_hash c ->
+  fold_left ck_add chunks c = mkCk (ck_kind c) (crc32_update (ck_poly c) (ck_val c) (concat chunks)).
+Proof.
+  induction chunks as [|ch chunks IH]; intros c Hc.
+  - cbn [fold_left concat]. rewrite crc32_update_nil. destruct c; reflexivity.
+  - cbn [fold_left concat]. rewrite (ck_add_hash c ch Hc).
+    rewrite IH by exact Hc. cbn [ck_kind ck_val].
+    rewrite <- crc32_update_app_gen. reflexivity.
+Qed.
+
+Lemma ck_sum_hash k v : k = 1 \/ k = 3 -> ck_sum (mkCk k v) = be 4 v.
+Proof. intros [-> | ->]; reflexivity. Qed.
+
+Lemma ck_fold_kind chunks c : ck_kind (fold_left ck_add chunks c) = ck_kind c.
+Proof.
+  revert c. induction chunks as [|ch chunks IH]; intros c; cbn [fold_left]; [reflexivity|].
+  rewrite IH. unfold ck_add. destruct (ck_kind c =? 1) eqn:E1; [cbn [ck_kind]; lia|].
+  destruct (ck_kind c =? 3) eqn:E3; [cbn [ck_kind]; lia|reflexivity].
+Qed.
+
+(* Main theorem on checksum objects: for a CRC checksum in ANY state c (the value is not
+   even required to be a 32-bit word), replacing one byte of the concatenated chunk data
+   (the chunk boundaries may move too) changes the 4 checksum bytes. *)
+Theorem ck_detect_data c chunks chunks' :
+  ck_hash c ->
+  one_byte_diff (concat chunks) (concat chunks') ->
+  ck_sum (fold_left ck_add chunks c) <> ck_sum (fold_left ck_add chunks' c).
+Proof.
+  intros Hc (pre & x & y & post & E1 & E2 & Hx & Hy & N).
+  rewrite !(ck_fold_hash _ c Hc), !(ck_sum_hash _ _ Hc), E1, E2.
+  destruct (poly_ok _ (ck_poly_ok c)) as [HP HR].
+  destruct (crc_one_byte_diff (ck_poly c) (ck_val c) pre x y post HP HR
+              (w32_byte x Hx) (w32_byte y Hy) N) as [Hd Hn].
+  apply be4_crc_neq; assumption.
+Qed.
+
+(* contrast: the null checksum (kind 0; also what Farmhash maps to) detects nothing *)
+Lemma ck_null_sum c chunks : ck_kind c = 0 -> ck_sum (fold_left ck_add chunks c) = [].
+Proof. intros E. unfold ck_sum. rewrite ck_fold_kind, E. reflexivity. Qed.
+
+(* the checksum bytes determine the 32-bit value *)
+Lemma ck_sum_inj c c' : ck_hash c -> ck_kind c' = ck_kind c -> w32 (ck_val c) -> w32 (ck_val c') ->
+  ck_sum c = ck_sum c' -> c = c'.
+Proof.
+  destruct c as [k v], c' as [k' v']. cbn [ck_kind ck_val]. intros Hc -> Hv Hv' E.
+  unfold ck_hash in Hc. cbn [ck_kind] in Hc. rewrite !(ck_sum_hash _ _ Hc) in E.
+  apply be_inj in E; [congruence|exact Hv|exact Hv'].
+Qed.
+
+(* ---- what the reader does: r_recv on a state whose next fragment is f ---- *)
+
+Definition rs_with_in (st : rst) (fs : list frag) : rst :=
+  mkRst (rs_state st) (rs_err st) (rs_rem st) (rs_cur st) (rs_more st) fs
+        (rs_ck st) (rs_got st) (rs_rel st) (rs_fin st).
+
+(* the checksum object r_recv uses for fragment f *)
+Definition recv_ck (st : rst) (f : frag) : option ckst :=
+  match rs_ck st with Some c => Some c | None => ck_new (f_ctype f) end.
+
+(* the type comparison of r_recv (only made from the second fragment on) *)
+Definition recv_tmismatch (st : rst) (c : ckst) (f : frag) : bool :=
+  negb (ck_typecode c =? f_ctype f) && (match rs_ck st with Some _ => true | None => false end).
+
+(* r_recv accepts (code 0) only if: no sticky error, a checksum object, no type mismatch,
+   and the fragment's checksum bytes equal to the running checksum over its chunks *)
+Lemma r_recv_accept_inv st f rest st1 :
+  r_recv (rs_with_in st (f :: rest)) = Some (0, st1) ->
+  rs_err st = 0 /\
+  exists c, recv_ck st f = Some c /\ recv_tmismatch st c f = false /\
+            f_ck f = ck_sum (fold_left ck_add (f_chunks f) c).
+Proof.
+  unfold r_recv, rs_with_in. cbn [rs_err rs_in rs_ck rs_got rs_rel rs_state rs_rem rs_cur rs_more rs_fin].
+  fold (recv_ck st f). intros H.
+  destruct (rs_err st =? 0) eqn:Ee; cbn [negb] in H; [|inversion H; lia].
+  split; [lia|].
+  destruct (recv_ck st f) as [c|] eqn:Ek; [|discriminate H].
+  fold (recv_tmismatch st c f) in H.
+  exists c. split; [reflexivity|].
+  destruct (recv_tmismatch st c f) eqn:Et; [inversion H|]. split; [reflexivity|].
+  destruct (bytes_eqb (f_ck f) (ck_sum (fold_left ck_add (f_chunks f) c))) eqn:Eb; cbn [negb] in H; [|inversion H].
+  apply bytes_eqb_eq. exact Eb.
+Qed.
+
+(* ... and it answers errMismatchedChecksums (8, sticky) when they are not equal *)
+Lemma r_recv_reject st f rest c :
+  rs_err st = 0 -> recv_ck st f = Some c -> recv_tmismatch st c f = false ->
+  f_ck f <> ck_sum (fold_left ck_add (f_chunks f) c) ->
+  exists st2, r_recv (rs_with_in st (f :: rest)) = Some (8, st2) /\ rs_err st2 = 8.
+Proof.
+  intros He Hk Ht Hne.
+  unfold r_recv, rs_with_in. cbn [rs_err rs_in rs_ck rs_got rs_rel rs_state rs_rem rs_cur rs_more rs_fin].
+  fold (recv_ck st f). rewrite He, Hk. cbn [Z.eqb negb].
+  fold (recv_tmismatch st c f). rewrite Ht.
+  destruct (bytes_eqb (f_ck f) (ck_sum (fold_left ck_add (f_chunks f) c))) eqn:Eb.
+  - exfalso. apply Hne. apply bytes_eqb_eq. exact Eb.
+  - cbn [negb]. eexists. split; [reflexivity|]. reflexivity.
+Qed.
+
+(* a fragment of type crc32 / crc32c is checked with a CRC object *)
+Lemma recv_ck_hash st f c :
+  recv_ck st f = Some c -> recv_tmismatch st c f = false ->
+  f_ctype f = c_ChecksumTypeCrc32 \/ f_ctype f = c_ChecksumTypeCrc32C -> ck_hash c.
+Proof.
+  unfold recv_ck, recv_tmismatch, ck_hash, ck_typecode, c_ChecksumTypeCrc32, c_ChecksumTypeCrc32C.
+  intros Hk Ht Hty. destruct (rs_ck st) as [c0|].
+  - inversion Hk; subst c0. lia.
+  - destruct Hty as [E | E]; rewrite E in Hk; cbn in Hk; inversion Hk; cbn [ck_kind]; lia.
+Qed.
+
+(* Reader, altered DATA: if the reader accepts fragment f (type crc32 or crc32c) in state st,
+   then in the same state it rejects with errMismatchedChecksums (code 8, sticky) every
+   fragment f' that carries the same type and checksum bytes but whose concatenated chunk
+   data differs from that of f in exactly one byte.  (The more-flag and the chunk boundaries
+   of f' are arbitrary.) *)
+Theorem r_recv_detect_data st f f' rest rest' st1 :
+  r_recv (rs_with_in st (f :: rest)) = Some (0, st1) ->
+  f_ctype f = c_ChecksumTypeCrc32 \/ f_ctype f = c_ChecksumTypeCrc32C ->
+  f_ctype f' = f_ctype f -> f_ck f' = f_ck f ->
+  one_byte_diff (concat (f_chunks f)) (concat (f_chunks f')) ->
+  exists st2, r_recv (rs_with_in st (f' :: rest')) = Some (8, st2) /\ rs_err st2 = 8.
+Proof.
+  intros Hacc Hty Ect Eck Hdiff.
+  destruct (r_recv_accept_inv st f rest st1 Hacc) as (He & c & Hk & Ht & Hsum).
+  pose proof (recv_ck_hash st f c Hk Ht Hty) as Hc.
+  apply (r_recv_reject st f' rest' c He).
+  - unfold recv_ck in *. rewrite Ect. exact Hk.
+  - unfold recv_tmismatch in *. rewrite Ect. exact Ht.
+  - rewrite Eck, Hsum. apply ck_detect_data; assumption.
+Qed.
+
+(* Reader, altered CHECKSUM FIELD: same data and type, any different checksum bytes (in
+   particular one altered byte, or the encoding of any other 32-bit value): code 8.  Holds
+   for every checksum kind. *)
+Theorem r_recv_detect_ck st f f' rest rest' st1 :
+  r_recv (rs_with_in st (f :: rest)) = Some (0, st1) ->
+  f_ctype f' = f_ctype f -> f_chunks f' = f_chunks f -> f_ck f' <> f_ck f ->
+  exists st2, r_recv (rs_with_in st (f' :: rest')) = Some (8, st2) /\ rs_err st2 = 8.
+Proof.
+  intros Hacc Ect Ech Nck.
+  destruct (r_recv_accept_inv st f rest st1 Hacc) as (He & c & Hk & Ht & Hsum).
+  apply (r_recv_reject st f' rest' c He).
+  - unfold recv_ck in *. rewrite Ect. exact Hk.
+  - unfold recv_tmismatch in *. rewrite Ect. exact Ht.
+  - rewrite Ech, <- Hsum. exact Nck.
+Qed.
+
+Corollary r_recv_detect_ck_byte st f f' rest rest' st1 :
+  r_recv (rs_with_in st (f :: rest)) = Some (0, st1) ->
+  f_ctype f' = f_ctype f -> f_chunks f' = f_chunks f -> one_byte_diff (f_ck f) (f_ck f') ->
+  exists st2, r_recv (rs_with_in st (f' :: rest')) = Some (8, st2) /\ rs_err st2 = 8.
+Proof.
+  intros Hacc Ect Ech Hd. apply (r_recv_detect_ck st f f' rest rest' st1 Hacc Ect Ech).
+  intros E. apply (one_byte_diff_neq _ _ Hd). symmetry. exact E.
+Qed.
+
+(* be 4 is injective on 32-bit values: a checksum field that encodes another value is rejected *)
+Corollary r_recv_detect_ck_value st f f' rest rest' st1 v v' :
+  r_recv (rs_with_in st (f :: rest)) = Some (0, st1) ->
+  f_ctype f' = f_ctype f -> f_chunks f' = f_chunks f ->
+  f_ck f = be 4 v -> f_ck f' = be 4 v' -> 0 <= v < 2 ^ 32 -> 0 <= v' < 2 ^ 32 -> v' <> v ->
+  exists st2, r_recv (rs_with_in st (f' :: rest')) = Some (8, st2) /\ rs_err st2 = 8.
+Proof.
+  intros Hacc Ect Ech Ev Ev' Hv Hv' N. apply (r_recv_detect_ck st f f' rest rest' st1 Hacc Ect Ech).
+  rewrite Ev, Ev'. intros E. apply N. apply (be_inj 4 v' v); [exact Hv'|exact Hv|exact E].
+Qed.
+
+(* once the error is set every later r_recv returns it (sticky) *)
+Lemma r_recv_sticky st e : rs_err st = e -> e <> 0 -> r_recv st = Some (e, st).
+Proof.
+  intros E N. unfold r_recv. destruct (rs_err st =? 0) eqn:Ee; [lia|]. cbn [negb]. rewrite E. reflexivity.
+Qed.
+
+(* ------------------------------------------------------------------------- *)
+(* sanity checks / non-vacuity                                                 *)
+(* ------------------------------------------------------------------------- *)
+
+(* the standard check values of CRC-32 and CRC-32C for "123456789" *)
+Example crc_check_ieee :
+  crc32_update poly_ieee 0 [49;50;51;52;53;54;55;56;57] = 3421780262.   (* 0xCBF43926 *)
+Proof. vm_compute. reflexivity. Qed.
+Example crc_check_castagnoli :
+  crc32_update poly_castagnoli 0 [49;50;51;52;53;54;55;56;57] = 3808858755.   (* 0xE3069283 *)
+Proof. vm_compute. reflexivity. Qed.
+
+Example poly_bit31 : Z.testbit poly_ieee 31 = true /\ Z.testbit poly_castagnoli 31 = true.
+Proof. split; reflexivity. Qed.
+
+(* the bit-31 hypothesis of crc_T1_inj is necessary: with P = 0, T1 forgets bit 0 *)
+Example crc_T1_not_inj_without_bit31 : crc_T1 0 0 = crc_T1 0 1 /\ 0 <> 1.
+Proof. split; [vm_compute; reflexivity|lia]. Qed.
+
+(* the hypotheses of r_recv_detect_data are satisfiable: first fragment of a crc32 message
+   with chunks "ab","c"; the altered fragment has "ab","d" *)
+Definition ex_st : rst := r_init [].
+Definition ex_f : frag :=
+  mkFrag true 1 (ck_sum (fold_left ck_add [[97;98];[99]] (mkCk 1 0))) [[97;98];[99]].
+Definition ex_f' : frag := mkFrag true 1 (f_ck ex_f) [[97;98];[100]].
+
+Example ex_accept : exists st1, r_recv (rs_with_in ex_st [ex_f]) = Some (0, st1).
+Proof. eexists. vm_compute. reflexivity. Qed.
+Example ex_diff : one_byte_diff (concat (f_chunks ex_f)) (concat (f_chunks ex_f')).
+Proof. exists [97;98], 99, 100, []. repeat split; try reflexivity; lia. Qed.
+Example ex_reject : exists st2, r_recv (rs_with_in ex_st [ex_f']) = Some (8, st2).
+Proof. eexists. vm_compute. reflexivity. Qed.
+
+Print Assumptions crc32_update_app.
+Print Assumptions crc_range.
+Print Assumptions crc_T1_inj.
+Print Assumptions crc_byte_inj_state.
+Print Assumptions crc_byte_inj_byte.
+Print Assumptions crc_detect_one_byte.
+Print Assumptions ck_detect_data.
+Print Assumptions r_recv_detect_data.
+Print Assumptions r_recv_detect_ck.
+Print Assumptions r_recv_detect_ck_value.
